@@ -23,7 +23,7 @@ ASSUMPTIONS = common.ASSUME_QR + [
     'a worker that does not return within the watchdog makes the run inconclusive, not violated']
 REQUIRED = ['evaluations', 'encode_observed', 'symbols_decoded', 'refused:ValueError', 'excluded_combination_refused',
             'spelling_pairs_equal', 'serializer_refusals', 'serializer_accepts', 'cli_runs', 'cli_refusals', 'cli_spelling_pairs']
-TIMEOUT = {'quick': 900, 'thorough': 7200}
+TIMEOUT = {'quick': 3600, 'thorough': 21600}
 
 VERSIONS = [None] * 6 + list(range(1, 41)) + [str(i) for i in range(1, 41)] + ['M1', 'M2', 'M3', 'M4', 'm1', 'm2', 'm3', 'm4'] + \
            [0, 41, -1, 100, 'M5', 'M0', '', 'abc', '0', '41', 'm', ' 1', '1.5', 'M 1']
@@ -373,7 +373,9 @@ def run_cli(case, rec, tmpdir):
         outfile = os.path.join(tmpdir, 'o%d.%s' % (rec.counters['cli_runs'], case['ext']))
         argv = ['--output=' + outfile] + argv
     env = core.child_env()
-    p = subprocess.run([sys.executable, '-m', 'segno.cli'] + argv, capture_output=True, env=env, timeout=120, cwd=tmpdir)
+    p = core.run_sub([sys.executable, '-m', 'segno.cli'] + argv, capture_output=True, env=env, cwd=tmpdir)
+    if p.returncode is None:
+        return
     rec.count('cli_runs')
     rec.seen('cli|' + ' '.join(a.split('=')[0] for a in case['argv'][:-1]) + '|%s|%d' % (case['ext'], p.returncode))
     err = p.stderr.decode('utf-8', 'replace')
@@ -456,10 +458,12 @@ def run_cases(cases, rec, tier='quick', seed='0'):
                     target = os.path.join(tmpdir, 'pair%d.txt' % len(outs))
                     if os.path.exists(target):
                         os.remove(target)
-                    pr = subprocess.run([sys.executable, '-m', 'segno.cli', '--output=' + target] + list(argv), capture_output=True,
-                                        env=core.child_env(), timeout=120, cwd=tmpdir)
+                    pr = core.run_sub([sys.executable, '-m', 'segno.cli', '--output=' + target] + list(argv), capture_output=True,
+                                        env=core.child_env(), cwd=tmpdir)
                     data = open(target, 'rb').read() if os.path.exists(target) else None
                     outs.append((pr.returncode, data))
+                if any(o[0] is None for o in outs):
+                    continue
                 rec.count('cli_spelling_pairs')
                 if outs[0] != outs[1]:
                     rec.deviation('C14', 'cli-spelling-changes-result', {'canonical': case['canon'], 'alternative': case['alt'],
